@@ -7031,6 +7031,14 @@ impl<'a> Tyck<'a> for TyEnvT<su::TermId> {
                     let TermAnnId::Type(ty, _kd) = param else {
                         tycker.err_k(TyckError::SortMismatch, std::panic::Location::caller())?
                     };
+                    // Constructors are looked up by name: a second arm of the same name could
+                    // never be selected consistently by introduction and elimination.
+                    if arms_vec.iter().any(|(seen, _)| *seen == name) {
+                        tycker.err_k(
+                            TyckError::DuplicateDataConstructor(name.clone()),
+                            std::panic::Location::caller(),
+                        )?
+                    }
                     arms_vec.push_back((name, ty));
                 }
                 let term = crate::query::InternedTerm::new(tycker.db, self.inner);
@@ -7076,6 +7084,12 @@ impl<'a> Tyck<'a> for TyEnvT<su::TermId> {
                     let TermAnnId::Type(ty, _kd) = out else {
                         tycker.err_k(TyckError::SortMismatch, std::panic::Location::caller())?
                     };
+                    if arms_vec.iter().any(|(seen, _)| *seen == name) {
+                        tycker.err_k(
+                            TyckError::DuplicateCoDataDestructor(name.clone()),
+                            std::panic::Location::caller(),
+                        )?
+                    }
                     arms_vec.push_back((name, ty));
                 }
                 let term = crate::query::InternedTerm::new(tycker.db, self.inner);
